@@ -38,6 +38,15 @@ class World:
                 s = gen.gen_signature(rng, time=t, rfc=rfc, calendar=self.cal, pub_time=t + rng.choice([1, 3600, 86400]), doc_data=data, first_corr=rng.choice([0, 2, 9]) if not rfc else None,
                                       nchains=rng.choice([1, 2, 3]), **kw)
             s.raw = s.enc()
+            if i in (1, 3, 7):
+                # canonical encodings the SDK never produces itself but has to keep byte-exact: an unknown non-critical element with a 16-bit header
+                # (N flag only) at the end of the signature, and / or the forward flag (only) on the first aggregation chain's 16-bit header
+                body = bytearray(s.raw[4:])
+                if i != 3 and body[0] & 0x80:
+                    body[0] |= 0x20
+                if i != 7:
+                    body += bytes([0xC0 | 0x02, 0x34, 0x00, 0x03, 0xAA, 0xBB, 0xCC])
+                s.raw = bytes([0x88, 0x00, len(body) >> 8, len(body) & 0xff]) + bytes(body)
             s.data = data
             s.local = local
             s.docimp = s.rfc.input_hash if s.rfc is not None else s.doc
